@@ -23,13 +23,39 @@ NEEDS = {
  "c20-2": ("C20", "opacity is written only when truthy: an alpha of exactly 0 is dropped", "a fill or stroke whose alpha is exactly 0 through the colour value itself (#rrggbb00, rgba(r,g,b,0))", "missed at first (no generated colour had alpha 0); caught after adding such colours to both generators"),
  "c20-3": ("C20", "the inverse viewport transforms of nested svg elements are composed on the wrong side", "an embedded svg with its own viewBox inside an svg whose viewBox transform is also not the identity and does not commute with it", "caught from the start"),
 }
+
+ROUND2 = {
+ "c09-4": ("C09", "Path.z_point rewritten with early returns: it stops at the nearest Move or Close and hands out a leading close's None end", "a leading z, then a drawing command, then Q/T/C/S/A with an inline close ('z L 5,5 Q 1,1 z'): a segment with end None is retained, bbox()/length()/d(relative) raise afterwards", "caught by one run in 60000 at first (usable/coordinate); fragments with a leading close followed by inline closes were added, now hundreds of runs"),
+ "c09-5": ("C09", "Arc.bbox early exit requires start == end in addition to sweep == 0", "a zero-radius arc between distinct points ('M0,0 A 0 5 30 1 1 5 5'): bbox() on the parsed path raises ZeroDivisionError", "caught from the start (usable oracle)"),
+ "c09-6": ("C09", "_rcoord dereferences the current point unless the path is empty", "a leading z followed by a relative pair command ('z m 5,5 l 1,1'): AttributeError", "caught from the start"),
+ "c10-4": ("C10", "the style-declaration loop unpacks key, value = equate.split(':')", "a style attribute with a declaration holding two or more colons: ValueError before the guarded region", "caught from the start (style-attribute faults had just been added)"),
+ "c10-5": ("C10", "the end-event error handler for text/tspan continues without popping the stack", "a text/tspan whose own attributes raise, followed by more elements: later siblings inherit its values", "caught from the start"),
+ "c10-6": ("C10", "the 's = None' before the shape constructors was removed", "a constructor ValueError (rotate(1e400), fill=rgb(1e400,0,0)) on the first child of a container or right after text/title/desc: AttributeError or a duplicated text", "caught from the start"),
+ "c16-4": ("C16", "_reverse_segments compares the pair of segments by value instead of identity", "a retraced stroke inside one subpath (a->b ... b->a)", "caught from the start"),
+ "c16-5": ("C16", "Arc.reverse returns early when start == end", "a whole ellipse held as one Arc (start == end, |sweep| = tau), which only the API can build", "missed at first (paths came from path data only); caught after adding a programmatically built full-turn arc subpath to the workload"),
+ "c16-6": ("C16", "Subpath.reverse re-links the segment after its close", "a closed subpath with a non-zero-length close directly followed by a subpath without its own move", "caught from the start"),
+ "c17-4": ("C17", "the lexer remembers the previous command for smooth controls and starts every parse() with no memory", "a piece that begins with T/t/S/s appended after the matching curve", "caught from the start"),
+ "c17-5": ("C17", "segment + string parses the string on its own and links the segment in front", "a single segment + data with relative pairs, h/v, or a close", "caught from the start"),
+ "c17-6": ("C17", "path += shape extends with abs(shape)'s segments", "Path + Rect/Circle/Ellipse whose transform has a rotation, skew or negative scale", "caught from the start"),
+ "c18-4": ("C18", "Text.property_by_object takes every attribute with self.__dict__.update(s.__dict__)", "a Text with an outline .path assigned, a copy/x*M/abs, then an in-place mutation of that path", "missed at first (no generated Text had a path; adding it also exposed that the unmodified library drops the path on copy, repaired in 49eed82)"),
+ "c18-5": ("C18", "Length.__imul__ percent branch scales the right operand in place", "Length('50%') * Length with other units: the non-in-place * rescales its right operand", "missed at first (Length * Length was not among the derivations); caught after adding it"),
+ "c18-6": ("C18", "Point.__radd__ returns self when the left operand is a numeric zero", "0 + p or sum([p]) followed by an in-place operation on the result", "missed at first; caught after adding 0 + x / sum([x]) derivations and the 'operator handed back its operand' oracle"),
+ "c20-4": ("C20", "opacities are written rounded to two decimals", "#rrggbbaa colours whose alpha/255 needs more than two decimals", "caught from the start"),
+ "c20-5": ("C20", "stroke-width is only written when it differs from 1.0", "reify=True and a source width times the transform scale equal to exactly 1.0: the copied source attribute survives", "caught from the start"),
+ "c20-6": ("C20", "the use-to-g branch recurses without the inverse viewport transform", "a use element together with a non-identity viewBox/viewport", "caught from the start"),
+}
 def main():
     only = sys.argv[1:]
-    for sid, (prop, what, needs, history) in sorted(NEEDS.items()):
+    table = dict(NEEDS)
+    table.update(ROUND2)
+    for sid, (prop, what, needs, history) in sorted(table.items()):
         if only and sid not in only:
             continue
         p, i = sid.split("-")
         src = "/tmp/seed-%s/_out" % p
+        if int(i) > 3:
+            src = "/tmp/seed2-%s/_out" % p
+            i = str(int(i) - 3)
         d = os.path.join(HERE, "seeded", sid)
         os.makedirs(d, exist_ok=True)
         shutil.copy(os.path.join(src, "change%s.diff" % i), os.path.join(d, "patch.diff"))
@@ -41,7 +67,7 @@ def main():
         nv = re.search(r"runs=(\d+) violations=(\d+)", r.stdout)
         meta = {
             "id": sid, "property": prop, "what": what, "needs_to_manifest": needs,
-            "confirmed": "in a scratch worktree of /repo outside /repo and /verif: patch applies to the tree with all fix: commits; pytest gives 21 failed (numpy/scipy), 404 passed, as on the unchanged tree; demo.py exits 0 without the change and 1 with it (tools/confirm_seeded.sh)",
+            "confirmed": "in a scratch worktree of /repo (checked out at main with all fix: commits) outside /repo and /verif: patch applies; pytest gives 21 failed (numpy/scipy), 404 passed, as on the unchanged tree; demo.py exits 0 without the change and 1 with it (tools/confirm_seeded.sh)",
             "check_run": "tools/try_patch.py %s seeded/%s/patch.diff (quick tier against a scratch copy of /repo's sources with the patch applied)" % (prop, sid),
             "check_exit": r.returncode, "caught": r.returncode == 1,
             "first_oracle": (m.group(1) + " " + m.group(2)) if m else None,
